@@ -967,20 +967,46 @@ func c03StateTables(c *Ctx, rule string) {
 	c.Check(ok2 && len(anyS) == 1 && anyS[0] == "any", rule, "AnyStates={any}", pos2, "any", "AnyStates is no longer [any]")
 	if dms := c.MustFunc(rule, "internal/config.defaultMatchStates"); dms != nil {
 		info := dms.Pkg.TypesInfo
+		// every return is either CIStates under exactly "the command is ci" or AnyStates not under it,
+		// whether written as a switch on the command or as an if with an early return
 		okCI, okDef := false, false
-		nCases := 0
-		for _, sw := range findSwitches(dms.Decl.Body, func(s *ast.SwitchStmt) bool { return s.Tag != nil }) {
-			cases, deflt := switchCases(sw)
-			nCases += len(cases)
-			for _, cs := range cases {
-				rets := returnsIn(cs.Clause.Body)
-				if o := objOf(info, cs.Expr); o != nil && o.Name() == "CICommand" && len(rets) == 1 && objOf(info, rets[0].Results[0]) == p.LookupObj("internal/config", "CIStates") {
-					okCI = true
+		nCases := 1
+		dpm := parentMap(dms.Decl.Body)
+		cmdP := paramObj(dms, 0)
+		for _, r := range returnsIn(dms.Decl.Body.List) {
+			if len(r.Results) != 1 {
+				nCases = 0
+				continue
+			}
+			underCI, other := false, false
+			for _, g := range lexicalGuards(dpm, r, dms.Decl.Body) {
+				isCI := false
+				if g.Tag != nil {
+					if o := objOf(info, g.E); o != nil && o.Name() == "CICommand" && objOf(info, g.Tag) == cmdP {
+						isCI = true
+					}
+				} else if be, ok := ast.Unparen(g.E).(*ast.BinaryExpr); ok && be.Op == token.EQL && objOf(info, be.X) == cmdP {
+					if o := objOf(info, be.Y); o != nil && o.Name() == "CICommand" {
+						isCI = true
+					}
+				}
+				switch {
+				case isCI && g.Truth:
+					underCI = true
+				case isCI && !g.Truth:
+					// the negation of the ci test: fine for the other return
+				default:
+					other = true
 				}
 			}
-			if deflt != nil {
-				rets := returnsIn(deflt.Body)
-				okDef = len(rets) == 1 && objOf(info, rets[0].Results[0]) == p.LookupObj("internal/config", "AnyStates")
+			res := objOf(info, r.Results[0])
+			switch {
+			case res == p.LookupObj("internal/config", "CIStates") && underCI && !other:
+				okCI = true
+			case res == p.LookupObj("internal/config", "AnyStates") && !underCI && !other:
+				okDef = true
+			default:
+				nCases = 0
 			}
 		}
 		c.Check(okCI && okDef && nCases == 1, rule, "defaultMatchStates:ci->CIStates, otherwise AnyStates", dms.Decl.Pos(), "state default depends on the command", "defaultMatchStates no longer returns CIStates exactly for the ci command and AnyStates otherwise")
